@@ -68,7 +68,7 @@ def instances_for(prop, tier, seed):
         add(script='one', k=k, budget={'change': 2, 'names': ['remote\r', 'x\ry', 'player']})
         # the user has dropped the event receiver
         add(script='two', k=k, budget={'dropevents': 1, 'change': 1})
-        add(script='one', prefix='inflight', k=k, budget={'dropevents': 1, 'change': 2, 'tick': 1})
+        add(script='one', prefix='inflight', k=k - 1, budget={'dropevents': 1, 'change': 1, 'tick': 1})
         # the server refuses an idle with an error response
         add(script='two', prefix='after_reply', k=k, budget={'faults': ['idleack'], 'tick': 1})
         # cancellation
@@ -91,6 +91,8 @@ def instances_for(prop, tier, seed):
         add(script='typed0after', prefix='after_reply', k=3, budget={'faults': ['eof'], 'tick': 1})
         add(script='typed2', k=4 if q else 6, budget={'tick': 1})
         add(script='typed3', k=3 if q else 5, budget={'change': 1})
+        # a slow list reply: its first frame has arrived, then a minute passes before the rest
+        add(script='typed3', prefix='inflight_partial2', k=3 if q else 4, budget={'longtick': 1})
     if prop == 'C08':
         k = 3 if q else 4
         for f in ('eof', 'read_error', 'write_error', 'garbage'):
